@@ -5,7 +5,10 @@ Schedule sampling under harness-forced overlap: all workers are released by a
 multiprocessing.Barrier, and inside each worker gffutils.create's tempfile factory is
 wrapped so that every worker waits (with a timeout) until all have created their
 intermediate file before any proceeds - the window in which a shared name or shared
-module state would collide.  Oracle: each output equals the solitary import of its input
+module state would collide.  When a configuration contains imports that are expected to
+fail (duplicate ID), the module's open() is wrapped as well: the others wait, file written
+and not yet read back, until those imports have failed, so that a failure that cleans up
+more than its own file is seen.  Oracle: each output equals the solitary import of its input
 (snapshot equality), the shared temp dir is empty afterwards, and concurrent readers see
 the writer's snapshot.  Overlap is measured, never used as an oracle.
 """
@@ -56,6 +59,23 @@ class _TempfileProxy(object):
         return getattr(tempfile, name)
 
 
+def _holding_open(log, barriers):
+    """Stands in for the builtin open inside gffutils.create for one worker: before the intermediate file is read back,
+    the worker waits until all have written theirs and until the imports that are expected to fail have failed."""
+
+    def _open(file, mode="r", *a, **kw):
+        if barriers is not None and file in log and "r" in mode and "held" not in log:
+            log.append("held")
+            for b in barriers:
+                try:
+                    b.wait(timeout=5.0)
+                except threading.BrokenBarrierError:
+                    pass
+        return open(file, mode, *a, **kw)
+
+    return _open
+
+
 def _kwargs(spec):
     opt = spec.get("options", "default")
     if opt == "no-inference":
@@ -65,7 +85,7 @@ def _kwargs(spec):
     return {}
 
 
-def _import_worker(idx, inp, out, tmpdir, start_barrier, tf_barrier, offset, queue, kwargs=None, expect_fail=False):
+def _import_worker(idx, inp, out, tmpdir, start_barrier, tf_barrier, offset, queue, kwargs=None, expect_fail=False, tf_barrier2=None):
     try:
         os.environ["TMPDIR"] = tmpdir
         tempfile.tempdir = tmpdir
@@ -74,6 +94,7 @@ def _import_worker(idx, inp, out, tmpdir, start_barrier, tf_barrier, offset, que
 
         log = []
         cr.tempfile = _TempfileProxy(tf_barrier, log)
+        cr.open = _holding_open(log, tf_barrier2)
         try:
             start_barrier.wait(timeout=20.0)
         except threading.BrokenBarrierError:
@@ -82,15 +103,21 @@ def _import_worker(idx, inp, out, tmpdir, start_barrier, tf_barrier, offset, que
         t0 = time.monotonic()
         if expect_fail:
             # an import that fails (duplicate ID): the others are held inside their temp-file window until it has failed
+            for b in (tf_barrier,) + tuple((tf_barrier2 or ())[:1]):
+                try:
+                    b.wait(timeout=5.0)  # until the others have written their intermediate files
+                except threading.BrokenBarrierError:
+                    pass
             try:
                 gffutils.create_db(inp, out, **(kwargs or {}))
                 failed = None
             except Exception as e:  # noqa
                 failed = e
-            try:
-                tf_barrier.wait(timeout=3.0)
-            except threading.BrokenBarrierError:
-                pass
+            for b in tuple((tf_barrier2 or ())[1:]):
+                try:
+                    b.wait(timeout=5.0)
+                except threading.BrokenBarrierError:
+                    pass
             queue.put((idx, "ok" if failed is None else "error", "expected failure: %r" % (failed,), t0, time.monotonic(), log))
             return
         db = gffutils.create_db(inp, out, **(kwargs or {}))
@@ -172,7 +199,7 @@ class ConfigLeg(object):
                 z = draw(st.integers(0, 9))
                 if z == 0:
                     sp["gz_fasta"] = True  # gzip-compressed input that ends in a ##FASTA section
-                elif z == 1 and not sp["gtf"]:
+                elif z in (1, 2) and not sp["gtf"]:
                     sp["duplicate_id"] = True  # an import that is expected to fail (duplicate ID) next to the others
             return {"inputs": inputs, "procs": n, "assign": assign, "offsets_ms": offsets,
                     "readers": draw(st.sampled_from([2, 4, 8, 16, 32])),
@@ -247,6 +274,8 @@ class ConfigLeg(object):
         # only imports that create an intermediate file meet at the temp-file barrier
         n_tf = sum(1 for k in range(n) if case["inputs"][case["assign"][k]].get("options") != "no-inference")
         tf_barrier = mp.Barrier(max(1, n_tf))
+        any_fail = any(case["inputs"][case["assign"][k]].get("duplicate_id") for k in range(n))
+        tf_barrier2 = (mp.Barrier(max(1, n_tf)), mp.Barrier(max(1, n_tf))) if any_fail else None
         queue = mp.Queue()
         procs = []
         outs = []
@@ -260,7 +289,7 @@ class ConfigLeg(object):
             out = outs[k]
             p = mp.Process(target=_import_worker, args=(k, paths[case["assign"][k]], out, shared_tmp, start_barrier, tf_barrier,
                                                         case["offsets_ms"][k], queue, _kwargs(case["inputs"][case["assign"][k]]),
-                                                        bool(case["inputs"][case["assign"][k]].get("duplicate_id"))))
+                                                        bool(case["inputs"][case["assign"][k]].get("duplicate_id")), tf_barrier2))
             p.daemon = False
             procs.append(p)
         for p in procs:
